@@ -2,9 +2,14 @@
 //
 // Engine A (lib/bfs): exhaustive breadth-first enumeration of call histories on
 // the REAL BasePathFS over a REAL base (MemFS, OrefaFS) holding /secret,
-// /top/secret2 and B=/top/b (dir a, file f, file a/f), executed in lock-step on
-// a standalone reference file system of the same type whose root holds B's
-// content (same calls, umask 022, fixed mtimes). No sampling.
+// /top/secret2, /out, /top/bb (dir k, file f: a sibling of B whose name has
+// B's name as a strict string prefix) and B=/top/b (dir a, file f, file a/f),
+// executed in lock-step on a standalone reference file system of the same type
+// whose root holds B's content (same calls, umask 022, fixed mtimes). The
+// alphabet also moves the BASE's own cwd (base.Chdir, not through the
+// wrapper) into B, to B, to the prefix sibling, to B's ancestors and to an
+// unrelated directory; the reference's cwd is then the virtual counterpart,
+// "/" when the base's cwd is outside B. No sampling.
 //
 // Oracle on every call:
 //  1. everything outside B in the base (node-graph lines of VerifDump + exact
@@ -16,7 +21,8 @@
 //     modulo Clean                                        -> kinds value, error-path;
 //     it names the base path although no argument and no virtual node does
 //     -> kind leak
-//     and the base's cwd stays what the reference's is    -> kind cwd
+//     and the base's cwd stays what the reference's is (or, outside B, where
+//     a call on the base has put it)                      -> kind cwd
 //
 // Not demanded (counted as informational notes in the evidence, never
 // reported): calls on which the reference itself panics/deadlocks
@@ -115,7 +121,7 @@ func main() {
 		}
 	}
 
-	budget := 40
+	budget := 120
 	if *tier == "thorough" {
 		budget = 1200
 	}
@@ -294,15 +300,15 @@ func main() {
 	}
 
 	segs := tierSegs(*tier)
-	bound := fmt.Sprintf("histories of length <= %d (completed %d); level 1: full alphabet of %d operations = all strings of <= %d segments over %v, abs/rel, as-is/trailing-slash/doubled-slash x %d single-path calls + %d-string core squared x Rename/Link/Symlink + Getwd + %d fixed Glob patterns; level k >= 2: the operations whose path operands are relative or contain '..' and have <= %v segments (levels 2..): %d operations at level 2, %d at level 3",
-		d, depthDone, perLevel[1], segs[0], segAlphabet, len(singleCalls), len(pairCore), len(fixedGlobs), segs[1:], perLevel[2], perLevel[3])
+	bound := fmt.Sprintf("histories of length <= %d (completed %d); level 1: full alphabet of %d operations = all strings of <= %d segments over %v, abs/rel, as-is/trailing-slash/doubled-slash x %d single-path calls + %d-string core squared x Rename/Link/Symlink + Getwd + %d fixed Glob patterns + %d strings naming the prefix sibling %s of B x the single-path calls + base.Chdir(d) on the base itself, d in %v, each followed by Getwd, Abs(\"f\"), Stat(\"f\") through the wrapper; level k >= 2: Getwd, the Glob patterns, the base.Chdir operations and the operations whose path operands are relative or contain '..' and have <= %v segments (levels 2..): %d operations at level 2, %d at level 3",
+		d, depthDone, perLevel[1], segs[0], segAlphabet, len(singleCalls), len(pairCore), len(fixedGlobs), len(siblingStrings), siblingPath, baseChdirTargets, segs[1:], perLevel[2], perLevel[3])
 
 	e := ev.Evidence{
 		PropertyID: *id, Tier: *tier, Seed: ev.Seed(), Level: "model_checking",
 		Coverage: map[string]any{
 			"states": states, "transitions": trans, "traces_validated_against_impl": trans,
 			"evaluations": trans, "distinct_nontrivial": len(classes),
-			"rule":                    "every history of length <= bound over the level alphabets executed on a fresh real BasePathFS(base,/top/b) and, in lock-step, on a standalone reference of the same type; distinct_nontrivial = distinct (call, reference outcome kinds, lexical class of the path operand(s)) observed on executed transitions",
+			"rule":                    "every history of length <= bound over the level alphabets executed on a fresh real BasePathFS(base,/top/b) and, in lock-step, on a standalone reference of the same type (a base.Chdir(d) of the alphabet acts on the base directly; the reference's cwd becomes d minus /top/b when d is in B, else \"/\"); distinct_nontrivial = distinct (call, reference outcome kinds, lexical class of the path operand(s), class of the base's cwd when it is outside B) observed on executed transitions",
 			"samples":                 samples,
 			"exhaustive":              exh,
 			"bound":                   bound,
@@ -320,6 +326,7 @@ func main() {
 		Assumptions: []string{
 			"state identity = injected node-graph dumps (VerifDump) of base and reference + both cwds; mtimes are compared as classes (setup instant / Chtimes instant / other) but are not part of the state key; a step that only changed an mtime class rebuilds the system",
 			"states in which the two sides diverged (tree, cwd, outside B changed, panic or decided deadlock) are reported and not expanded",
+			"the base's own cwd is moved only by the alphabet's base.Chdir(d) (d existing directories: /top/b/a, /top/b, /top/bb, /top/bb/k, /top, /, /out; no File.Chdir on the base, no unclean spelling of d); the outcome of that call on the base is taken as given (an OrefaFS base refuses \"/\"). While the base's cwd is outside B the expected virtual cwd is \"/\" (the documented behaviour of BasePathFS.curDir) and every call through the wrapper must behave as on the reference with cwd \"/\" and must leave the base's cwd where it is unless it is a successful Chdir; signatures of such steps carry basecwd=prefix-sibling|ancestor|unrelated",
 			"returned and error-embedded path strings (Getwd, Abs, Glob, WalkDir, File.Name, Readlink, EvalSymlinks, PathError.Path, LinkError.Old/New) are compared after normalising both sides to the absolute cleaned virtual form (Clean(p) if absolute, else Clean(Join(virtual cwd before the call, p))); a different spelling of the same virtual location is counted as spelling_only_path_eqs, not as a violation; a different location is kind value/error-path, or leak when the wrapper's path carries the base prefix /top/b or /top and the reference's does not",
 			"BasePathFS does not advertise FeatSymlink: for Symlink/Readlink/EvalSymlinks over a MemFS base the reference answer is that of a file system without symbolic links (EPERM, arguments as given, no effect)",
 			"where the reference itself panics or deadlocks on a call (kind note:ref-defect) or cannot address its root (OrefaFS, kind note:ref-root-unaddressable) nothing is demanded of the outcome; the outside-B snapshot and the leak test still apply",
